@@ -35,7 +35,9 @@ BOUNDS = {
               "Export.hdf5": "N = 4 events, arbitrary filter, filtered or "
               "not, formats hdf5/dict/hierarchy/tdms tag, features "
               "{deform (scalar), image, mask, trace, contour, a registered non-scalar temporary feature}, "
-              "duplicate feature names, one feature shorter by one event",
+              "duplicate feature names, one feature shorter by one event; "
+              "output path new, or holding an earlier export (override=True, "
+              "N = 3)",
               "Export.tsv": "N = 3 events x 2 scalar features"},
     "thorough": {"stack generator": "k = 0..45"},
 }
@@ -291,7 +293,16 @@ def run_export(eng, p):
         Path = P
 
     class H5(symh5.File):
+        # a path that exists keeps its content unless opened with "w"
+        def __new__(cls, path, mode="r", **kw):
+            if mode != "w" and str(path) in files:
+                return files[str(path)]
+            return symh5.File.__new__(cls)
+
         def __init__(self, path, mode="r", **kw):
+            if mode != "w" and files.get(str(path)) is self:
+                self.closed = False
+                return
             symh5.File.__init__(self, str(path), "w")
             files[str(path)] = self
 
@@ -303,10 +314,23 @@ def run_export(eng, p):
     Wr = sym_writer(np=npx, h5py=h5shim, pathlib=pathlib_shim)
     ns = shadow(EX, np=npx, RTDCWriter=Wr, pathlib=pathlib_shim,
                 range=srange)
+    kw = {}
+    if p.get("existing"):
+        # an earlier export is already present at the output path
+        old = H5("/d/out.rtdc", "w")
+        oev = old.require_group("events")
+        for feat in dict.fromkeys(feats):
+            if feat == "deform":
+                oev.create_dataset("deform", data=SArr(
+                    [SReal(z3.Real("stale%d" % i)) for i in range(2)], float),
+                    chunks=(10,), maxshape=(None,))
+        old.attrs["experiment:event count"] = 2
+        old.close()
+        kw["override"] = True
     with quiet():
         ns["Export"](DS()).hdf5("/d/out.rtdc", features=list(feats),
                                 filtered=p["filtered"],
-                                skip_checks=False)
+                                skip_checks=False, **kw)
     out = files["/d/out.rtdc"]
     out.closed = False
     ev = out.get("events", None)
@@ -489,6 +513,11 @@ def cases(tier, seed):
                              filtered=filtered, feats=["deform", "image"],
                              short="image")))
     for filtered in (True, False):
+        out.append(("export hdf5 filtered=%s over an existing file" %
+                    filtered, dict(kind="export", N=3, format="hdf5",
+                                   filtered=filtered, existing=True,
+                                   feats=["deform", "image"])))
+    for filtered in (True, False):
         out.append(("tsv filtered=%s" % filtered,
                     dict(kind="tsv", N=3, filtered=filtered)))
     random.Random(seed).shuffle(out)
@@ -620,8 +649,15 @@ def replay(case, params, v):
             ds.apply_filter()
             feats = [f for f in p["feats"] if f in d]
             path = os.path.join(td, "o.rtdc")
+            kw = {}
+            if p.get("existing"):
+                with Wm.RTDCWriter(path, mode="reset") as hw:
+                    hw.store_feature("deform", np.array([.5, .6]))
+                    hw.store_metadata({"experiment": {"event count": 2}})
+                kw["override"] = True
             try:
-                ds.export.hdf5(path, features=feats, filtered=p["filtered"])
+                ds.export.hdf5(path, features=feats, filtered=p["filtered"],
+                               **kw)
             except Exception as e:
                 return {"reproduced": True, "key": "Export.hdf5|raises",
                         "detail": "export of %r (filtered=%s, %s source, "
